@@ -25,7 +25,7 @@
    the real code under the property observers: the unchanged code passes, an implementation that has the bug fails.
      "no_inval" "partial_ok" "no_old_recv" "le_old" "no_old_send" "no_clear_req" "eph_in_dosend" "eph_ffwd"
      "no_rerequest" "bal_all_pubs" "no_required" "prefetch_first_hop" "no_unregister" "id_not_carried" "hello_counts"
-     "inval_complete_only" "C01b_state" "bal_unlock_on_enter" "bal_eph_reenables" "stale_t" "ll_prev_stale"
+     "inval_complete_only" "C01b_state" "bal_unlock_on_enter" "bal_eph_reenables" "stale_t" "ll_prev_stale" "lazy_none_keeps_state"
    and the switch "stale_kept": recv() keeps the frames buffered under an older id when it is entered with a newer expected id
    (the code before its repair, see known_findings.json) *)
 EXTENDS Integers, Sequences, FiniteSets, TLC
@@ -138,7 +138,8 @@ InitRecvd(c) == IF Explicit(c) THEN [some |-> TRUE,  e |-> [t \in SubTopics(c) |
                                ELSE [some |-> FALSE, e |-> EmptyF]
 InitSrc(c, conn) == [conn |-> conn, reg |-> TRUE, emin |-> 0] @@ InitRecvd(c)
 InitSrcs(f) == [i \in 1..NSrc(f) |-> InitSrc(<<f, i>>, FALSE)]
-InitMQ      == [ss |-> NoneSt, sbal |-> 0, rs |-> NoneSt, frames |-> EmptyF, has |-> FALSE, inp |-> EmptyF, tw |-> 0]
+InitMQ      == [ss |-> NoneSt, sbal |-> 0, rs |-> NoneSt, frames |-> EmptyF, has |-> FALSE, inp |-> EmptyF, tw |-> 0, ln |-> FALSE]
+\* ln: what process() returned is a callable that will yield None when the sender evaluates it (a relay with Beh.lazy on a skipped id)
 \* tw: recv() slices of the current loop_once that timed out (counted only when the filter has a sources_timeout)
 InitSL      == [mid |-> 0, bal |-> 0, doSend |-> FALSE, doHello |-> FALSE, outs |-> {}, waited |-> 0]
 \* waited: ZMQ_POLL_TIMEOUT ticks spent in this send() call; only kept by the design mutation "stale_t" (one clock read per call)
@@ -535,6 +536,10 @@ Proc(f) ==
         THEN \* process() calls exit() / raises: the filter ends (the frames in hand are dropped)
              /\ mq' = [mq EXCEPT ![f].has = FALSE, ![f].inp = EmptyF, ![f].frames = EmptyF]
              /\ Terminate(f, ExitKind[f], reqq, pubq)
+        ELSE IF r.none /\ NOut[f] > 0 /\ Beh[f].lazy
+        THEN \* process() returned a callable that yields None: it is evaluated when the sender is ready to publish (mq.py:165-171)
+             /\ mq' = [mq EXCEPT ![f].inp = EmptyF, ![f].frames = EmptyF, ![f].ln = TRUE]
+             /\ pc' = [pc EXCEPT ![f] = IF Beh[f].slow THEN "work_s" ELSE "s_enter"]
         ELSE IF r.none
         THEN \* sink, or process() returned None: MQ.send(None) returns True at once (mq.py:183-187)
              /\ mq' = [mq EXCEPT ![f].has = FALSE, ![f].inp = EmptyF, ![f].frames = EmptyF]
@@ -557,7 +562,7 @@ WorkDone(f) ==
 
 GenExit(f) ==           \* the origin ends itself instead of producing frame ExitAt
   /\ pc[f] = "gen"
-  /\ oseq[f] <= MaxSeq /\ ExitAt[f] >= 0 /\ oseq[f] = ExitAt[f]
+  /\ oseq[f] <= MaxSeq /\ ExitAt[f] >= 0 /\ oseq[f] = ExitAt[f] /\ inc[f] = 0      \* (a source started again goes on)
   /\ Terminate(f, ExitKind[f], reqq, pubq)
   /\ lbl' = <<"int", f, 0>>
   /\ UNCHANGED <<minSend, clients, sl, prevId, rmin, rbal, rsrc, mq, oseq, subq, pullq, linkUp, inc, stalled,
@@ -565,7 +570,7 @@ GenExit(f) ==           \* the origin ends itself instead of producing frame Exi
 
 Gen(f) ==
   /\ pc[f] = "gen"
-  /\ oseq[f] <= MaxSeq /\ ~(ExitAt[f] >= 0 /\ oseq[f] = ExitAt[f])
+  /\ oseq[f] <= MaxSeq /\ ~(ExitAt[f] >= 0 /\ oseq[f] = ExitAt[f] /\ inc[f] = 0)
   /\ IF Beh[f].lazy
      THEN mq' = [mq EXCEPT ![f].frames = EmptyF, ![f].has = TRUE]       \* a callable: evaluated inside send_maybe
      ELSE /\ mq' = [mq EXCEPT ![f].frames = [t \in OTopics(f, oseq[f]) |-> <<FIdx[f], oseq[f], 0>>], ![f].has = TRUE]
@@ -637,9 +642,21 @@ SetSeq(S) == SelectSeq(TopicOrder, LAMBDA t : t \in S)
 (* send_maybe (zeromq.py:416-486) followed by the code after it.  lc = locals, cl = clients; waitpc = where to park if
    nothing is sent. *)
 SendMaybe(f, lc, cl, waitpc) ==
-  LET canSend == lc.doSend /\ Len(cl) > 0
-      lazyNone == FALSE
-  IN IF ~canSend
+  LET \* (balanced: do_send / outputs are not recomputed after a CLOSE removed a client, zeromq.py:352-360; the model waits when no
+      \* output is eligible for the clients that are left - the code would publish on the endpoint it chose before: see DESIGN.md)
+      canSend == lc.doSend /\ Len(cl) > 0 /\ (OutBal[f] => Eligible(f, cl) # {})
+      lazyNone == mq[f].ln
+  IN IF canSend /\ lazyNone
+     THEN \* the callable yields None: "frames have been sent" (zeromq.py:424-426): nothing is published, no id is used up, no
+          \* client is marked as served; MQ.send keeps no state for the next recv() (mq.py:192)
+          /\ pubq' = IF lc.doHello THEN PubAll(f, AllOuts(f), <<HelloMsg(f)>>, pubq) ELSE pubq
+          /\ sl' = [sl EXCEPT ![f] = [lc EXCEPT !.doHello = FALSE]]
+          /\ clients' = [clients EXCEPT ![f] = cl]
+          /\ mq' = [mq EXCEPT ![f].rs = IF D("lazy_none_keeps_state") THEN minSend[f] ELSE NoneSt, ![f].ss = NoneSt, ![f].has = FALSE,
+                              ![f].frames = EmptyF, ![f].ln = FALSE]
+          /\ pc' = [pc EXCEPT ![f] = AfterSend(f)]
+          /\ UNCHANGED <<minSend, oseq, plog, ahead>>
+     ELSE IF ~canSend
      THEN /\ pubq' = IF lc.doHello THEN PubAll(f, AllOuts(f), <<HelloMsg(f)>>, pubq) ELSE pubq
           /\ sl' = [sl EXCEPT ![f] = [lc EXCEPT !.doHello = FALSE]]
           /\ clients' = [clients EXCEPT ![f] = cl]
@@ -841,6 +858,21 @@ Restart(f) ==
   /\ UNCHANGED <<minSend, clients, sl, prevId, rmin, rbal, rsrc, mq, oseq, pubq, subq, reqq, pullq, linkUp, stalled,
                  nfaults, plog, ndeliv, lastD, ahead, bad>>
 
+\* a source that has ended (cleanly or by an error: CLOSE was published) is started again, e.g. by a supervisor: new objects on the
+\* same addresses, its stream goes on
+Again(f) ==
+  /\ "again" \in FaultKinds /\ nfaults < MaxFaults /\ f \in Victims /\ IsOrigin(f)
+  /\ pc[f] = "done"
+  /\ pc' = [pc EXCEPT ![f] = StartPC(f)]
+  /\ inc' = [inc EXCEPT ![f] = @ + 1]
+  /\ sl' = [sl EXCEPT ![f] = InitSL]
+  /\ mq' = [mq EXCEPT ![f] = InitMQ]
+  /\ dlast' = [dlast EXCEPT ![f] = -1]
+  /\ nfaults' = nfaults + 1
+  /\ lbl' = <<"restart", f, 0>>
+  /\ UNCHANGED <<minSend, clients, prevId, rmin, rbal, rsrc, oseq, pubq, subq, reqq, pullq, linkUp, stalled,
+                 plog, ndeliv, lastD, ahead, bad>>
+
 Stall(f) ==
   /\ "stall" \in FaultKinds /\ nfaults < MaxFaults /\ f \in Victims /\ Runs(f)
   /\ stalled' = stalled \cup {f}
@@ -874,7 +906,7 @@ StepTO(f) == Runs(f) /\ (RTimeout(f) \/ STimeout(f) \/ SBlockTick(f) \/ WorkDone
 
 Net    == \E c \in Conns : Establish(c) \/ DeliverPub(c) \/ DeliverReq(c)
 Fault  == \/ \E c \in Conns : DropPub(c)
-          \/ \E f \in Filters : Kill(f, TRUE) \/ Kill(f, FALSE) \/ Restart(f) \/ Stall(f) \/ Resume(f)
+          \/ \E f \in Filters : Kill(f, TRUE) \/ Kill(f, FALSE) \/ Restart(f) \/ Again(f) \/ Stall(f) \/ Resume(f)
 
 GInt == \E f \in Filters : IntEnabled(f)
 
